@@ -87,9 +87,9 @@ void harness(void)
 #endif
   TJV_REACH_HERE("after encrypt");
   __CPROVER_assert(tjv_done(), "spec: specification program ran to completion (every block consumed, nothing skipped, no extra call)");
-  __CPROVER_assert(clen == mlen + 8, "C01/C08: *clen == mlen + 8");
-  if (mlen > 0) __CPROVER_assert(M.o.gout_set && outb[M.o.gidx] == M.o.gout, "C02/C09: ciphertext byte equals the specification's");
-  __CPROVER_assert(outb[mlen + gt] == (uint8_t)((gt < 4 ? M.tag_lo : M.tag_hi) >> (8 * (gt & 3))), "C02/C09: tag byte equals the specification's");
+  __CPROVER_assert(clen == mlen + 8, "spec: *clen == mlen + 8");
+  if (mlen > 0) __CPROVER_assert(M.o.gout_set && outb[M.o.gidx] == M.o.gout, "spec: ciphertext byte equals the specification's");
+  __CPROVER_assert(outb[mlen + gt] == (uint8_t)((gt < 4 ? M.tag_lo : M.tag_hi) >> (8 * (gt & 3))), "spec: tag byte equals the specification's");
 #ifndef INPLACE
   if (mlen > 0) __CPROVER_assert(inb[M.o.gidx] == in_g, "C06: plaintext input not modified");
 #endif
@@ -104,12 +104,12 @@ void harness(void)
   tjw_ret = ret;
   TJV_REACH_HERE("after decrypt");
   __CPROVER_assert(tjv_done(), "spec: specification program ran to completion (every block consumed, nothing skipped, no extra call)");
-  __CPROVER_assert(mlen_out == mlen, "C01/C08: *mlen == clen - 8");
+  __CPROVER_assert(mlen_out == mlen, "spec: *mlen == clen - 8");
   _Bool match = 1;
   for (int i = 0; i < 8; i++) match = match & (M.rtagv[i] == (uint8_t)((i < 4 ? M.tag_lo : M.tag_hi) >> (8 * (i & 3))));
-  __CPROVER_assert(ret == (match ? 0 : -1), "C03/C08: decrypt returns 0 iff the trailing 8 bytes equal the specification's tag over the recovered plaintext, else -1");
+  __CPROVER_assert(ret == (match ? 0 : -1), "spec: decrypt returns 0 iff the trailing 8 bytes equal the specification's tag over the recovered plaintext, else -1");
   if (mlen > 0) {
-    __CPROVER_assert(ret == 0 ==> (M.o.gout_set && outb[M.o.gidx] == M.o.gout), "C01/C08: on accept the plaintext byte equals the specification's");
+    __CPROVER_assert(ret == 0 ==> (M.o.gout_set && outb[M.o.gidx] == M.o.gout), "spec: on accept the plaintext byte equals the specification's");
     __CPROVER_assert(ret != 0 ==> outb[M.o.gidx] == 0, "C04: on reject every plaintext byte is zero");
   }
   __CPROVER_assert(inb[mlen + gt] == M.rtagv[gt], "C06: tag bytes of the input not modified");
